@@ -9,14 +9,19 @@ for f in sorted(glob.glob(os.path.join(V, "variants", "benign", "*.json"))):
     for sp in json.load(open(f)):
         if sp.get("skip"):
             continue
-        p = os.path.join(repo, sp["file"])
-        s = open(p).read()
-        if sp["old"] not in s:
+        overlay, stale = {}, False
+        for ed in sp.get("edits", [sp]):
+            p = os.path.join(repo, ed["file"])
+            s = overlay.get(p) or open(p).read()
+            if ed["old"] not in s:
+                stale = True
+                break
+            overlay[p] = s.replace(ed["old"], ed["new"]) if ed.get("count", 1) == 0 else s.replace(ed["old"], ed["new"], 1)
+        if stale:
             print(f"{sp['name']}: STALE (text not found)")
             continue
-        s2 = s.replace(sp["old"], sp["new"]) if sp.get("count", 1) == 0 else s.replace(sp["old"], sp["new"], 1)
         tmp = tempfile.NamedTemporaryFile("w", suffix=".json", delete=False)
-        json.dump({p: s2}, tmp); tmp.close()
+        json.dump(overlay, tmp); tmp.close()
         env = dict(os.environ, GOFLAGS="-mod=mod", GOPROXY="off", GOSUMDB="off", GOTOOLCHAIN="local"); env.pop("GOWORK", None)
         r = subprocess.run([os.path.join(V, "engine/slcheck"), "-repo", repo, "-verif", V, "-prop", "all", "-tier", "quick", "-no-evidence", "-overlay", tmp.name],
                            env=env, stdout=subprocess.PIPE, stderr=subprocess.STDOUT, text=True)
